@@ -44,6 +44,7 @@ type Clause struct {
 	Line     int
 	OnPanic  bool
 	Mode     string // "" = every mode; "seq" / "itf" = only that mode
+	Assumed  bool   // loop fact that is assumed at the loop head and never proved (listed with the assumptions)
 
 	FnName string   // synthetic function
 	P1     []string // parameter names of level 1 (entry state)
@@ -345,6 +346,13 @@ func parseContractFile(path, pkgDir string, src []byte) (*ContractFile, error) {
 			case "invariant":
 				cl := mk("invariant", srest)
 				cl.Loop = n
+				ls.Invariants = append(ls.Invariants, cl)
+			case "assume":
+				// a fact about the loop state that the verifier cannot establish (part of a declared assumption such as
+				// A-ring): assumed at the loop head, never proved, and always listed among the assumptions
+				cl := mk("invariant", srest)
+				cl.Loop = n
+				cl.Assumed = true
 				ls.Invariants = append(ls.Invariants, cl)
 			case "unroll":
 				ls.Unroll, err = strconv.Atoi(srest)
@@ -1010,11 +1018,15 @@ func (g *genCtx) generate(cf *ContractFile) (string, error) {
 					mi.Kind, mi.Type, mi.Field = "whole", "*", "*"
 				case strings.HasPrefix(raw, "[]") && strings.HasSuffix(raw, "::*"):
 					// all elements of all slices of a basic element type
-					w := map[string]int{"uint64": 64, "int64": 64, "int": 64, "uint": 64, "uint32": 32, "int32": 32, "uint8": 8, "byte": 8}[strings.TrimSuffix(strings.TrimPrefix(raw, "[]"), "::*")]
+					et := strings.TrimSuffix(strings.TrimPrefix(raw, "[]"), "::*")
+					w := map[string]int{"uint64": 64, "int64": 64, "int": 64, "uint": 64, "uint32": 32, "int32": 32, "uint8": 8, "byte": 8}[et]
 					if w == 0 {
 						return nil, fmt.Errorf("unsupported element type in %q", raw)
 					}
-					mi.Kind, mi.Type, mi.Field = "wholekey", "", "E:"+symName(bvSort(w).name)
+					if et == "byte" {
+						et = "uint8"
+					}
+					mi.Kind, mi.Type, mi.Field = "wholekey", "", "E:"+et
 				case strings.HasPrefix(raw, "map "):
 					// the contents of one Go map
 					mi.Kind = "mapof"
